@@ -318,6 +318,13 @@ def gen_observables(tape: Tape, T: float, dt: float, kinds: list[str] | None = N
         if k == "bitstrings":
             d["shots"] = tape.int(shots[0], shots[1], "shots")
         obs.append(d)
+    # a second instance of an observable under its own tag (tag_suffix) and with its own times
+    if tape.bool(0.2, "suffixed_observable"):
+        src = obs[tape.int(0, len(obs) - 1, "suffixed_which")]
+        dup = dict(src)
+        dup["suffix"] = "x"
+        dup["times"] = gen_eval_times(tape, T, dt, "t_sfx")
+        obs.append(dup)
     # the order in which the observables are listed is the order in which the callbacks see the (shared) state object
     # and in which the adapter collects their times: part of the schedule, not of the physics
     if len(obs) > 1 and tape.bool(0.6, "shuffle_observables"):
@@ -412,6 +419,19 @@ def make_config(scn: dict, cfg: dict, **over: Any):
         kw["interaction_matrix"] = c["interaction_matrix"]
     if c.get("interaction_cutoff"):
         kw["interaction_cutoff"] = c["interaction_cutoff"]
+    if c.get("log_file"):
+        import pathlib
+
+        kw["log_file"] = pathlib.Path(c["log_file"])  # relative: lands in the (simulated) working directory
+    if c.get("initial_bits") and c.get("initial_state") is None:
+        if c["backend"] == "mps":
+            from emu_mps import MPS
+
+            c["initial_state"] = MPS.from_state_amplitudes(eigenstates=("r", "g"), amplitudes={c["initial_bits"]: 1.0})
+        else:
+            from emu_sv import StateVector
+
+            c["initial_state"] = StateVector.from_state_amplitudes(eigenstates=("r", "g"), amplitudes={c["initial_bits"]: 1.0})
     if c["backend"] == "mps":
         from emu_mps import MPSConfig
         from emu_mps.solver import Solver
